@@ -49,6 +49,9 @@ Fixpoint rs_all {A} (f : A -> res bool) (l : list A) : res bool :=
   | x :: t => b <- f x ;; if b then rs_all f t else Ok false
   end.
 
+(* `a..b` as an iterator (evaluated once) *)
+Definition rs_range (a b : nat) : list nat := seq a (b - a).
+
 (* slices *)
 Definition rs_index {A} (l : list A) (i : nat) : res A := get site_index l i.                 (* v[i] *)
 Definition rs_upd {A} (l : list A) (i : nat) (x : A) : res (list A) := upd site_index l i x.    (* v[i] = x *)
